@@ -284,4 +284,274 @@ theorem filter_abort_data_chain_e2e {p : Preamble} {recs sbody dbody : List Rec}
 
 
 
+/-! ## Which replies are `EndRequest` records for the request -/
+
+/-- the first four bytes of an `EndRequest` record for request `id` -/
+def EndHead (id : Nat) : Bytes := [1, 3] ++ toBe16 id
+
+theorem endRequest_head (id : Nat) (st : ExitStatus) : EndHead id <+: endRequest id st := by
+  refine ⟨toBe16 8 ++ [UInt8.ofNat 0, 0] ++ st.toEndRequest.toBytes, ?_⟩
+  simp [EndHead, endRequest, EndRequest.toRecord, RecordHeader.toBytes, RT.endRequest]
+
+theorem toBe16_inj {m n : Nat} (hm : m < 65536) (hn : n < 65536) (h : toBe16 m = toBe16 n) : m = n := by
+  have e1 := be16_toBe16 hm
+  have e2 := be16_toBe16 hn
+  simp only [toBe16] at e1 e2 h
+  have ha : UInt8.ofNat (m / 256) = UInt8.ofNat (n / 256) := by injection h
+  have hb : UInt8.ofNat m = UInt8.ofNat n := by
+    injection h with _ h2
+    injection h2
+  rw [← e1, ← e2, ha, hb]
+
+/-- **No reply owed for a record met while request `id` is active is an `EndRequest` for `id`**: the
+only `EndRequest` the noise can cause is the refusal (`CantMpxConn`) of a `BeginRequest` with ANOTHER id. -/
+theorem owed_active_not_end {id mc : Nat} (hid : id < 65536) {r : Rec} (hr : r.WF) :
+    ¬ EndHead id <+: owed (some id) mc r := by
+  intro h
+  unfold owed at h
+  split at h
+  · obtain ⟨x, hx⟩ := h
+    simp [EndHead, UnknownType.toRecord, RecordHeader.toBytes, RT.unknown] at hx
+  · split at h
+    · split at h
+      · obtain ⟨x, hx⟩ := h
+        simp [EndHead] at hx
+      · obtain ⟨x, hx⟩ := h
+        simp [EndHead, Vars.responseRecord, RecordHeader.toBytes, RecordHeader.new, RecordHeader.setLengths,
+          RT.getValuesResult] at hx
+    · split at h
+      · dsimp only at h
+        split at h
+        · rename_i hne
+          obtain ⟨x, hx⟩ := h
+          have h4 := congrArg (List.take 4) hx
+          simp only [EndHead, toBe16, EndRequest.toRecord, RecordHeader.toBytes, List.cons_append, List.nil_append,
+            List.take_succ_cons, List.take_zero, List.cons.injEq, and_true, true_and] at h4
+          have h16 : toBe16 id = toBe16 r.id := by
+            simp only [toBe16, List.cons.injEq, and_true]
+            exact ⟨h4.2.1, h4.2.2⟩
+          have := toBe16_inj hid hr.1 h16
+          simp [this] at hne
+        · obtain ⟨x, hx⟩ := h
+          simp [EndHead] at hx
+      · obtain ⟨x, hx⟩ := h
+        simp [EndHead] at hx
+
+/-- … nor is any reply owed for a record that is not a `BeginRequest`, met by an idle request parser -/
+theorem owed_idle_not_end {mc : Nat} (id : Nat) {r : Rec} (hnb : r.rtype.toNat ≠ RT.beginRequest) :
+    ¬ EndHead id <+: owed none mc r := by
+  intro h
+  unfold owed at h
+  split at h
+  · obtain ⟨x, hx⟩ := h
+    simp [EndHead, UnknownType.toRecord, RecordHeader.toBytes, RT.unknown] at hx
+  · split at h
+    · split at h
+      · obtain ⟨x, hx⟩ := h
+        simp [EndHead] at hx
+      · obtain ⟨x, hx⟩ := h
+        simp [EndHead, Vars.responseRecord, RecordHeader.toBytes, RecordHeader.new, RecordHeader.setLengths,
+          RT.getValuesResult] at hx
+    · split at h
+      · rename_i hb
+        simp at hb
+        exact hnb hb
+      · obtain ⟨x, hx⟩ := h
+        simp [EndHead] at hx
+
+theorem emptyStreams_not_end (id : Nat) :
+    ¬ EndHead id <+: RecordHeader.toBytes ⟨6, id, 0, 0⟩ ∧ ¬ EndHead id <+: RecordHeader.toBytes ⟨7, id, 0, 0⟩ := by
+  constructor <;> (intro h; obtain ⟨x, hx⟩ := h; simp [EndHead, RecordHeader.toBytes] at hx)
+
+/-! ## The table -/
+
+/-- **The two facts C11 cares about**, for one aborted Filter request: (1) exactly one handler start and,
+behind the replies of the preamble, exactly ONE `EndRequest` record for the request — the write log is
+`before ++ EndRequest(id, st) ++ after`, where `before` / `after` are lists of whole reply records (the
+replies owed for the noise before the abort record, the empty Stdout / Stderr records of a writeable
+request; the replies owed for what follows the abort record), NONE of which starts like an `EndRequest`
+for `id` (`EndHead`); (2) that record carries the status `st`. -/
+structure EndOnce (p : Preamble) (recs : List Rec) (mc : Nat) (st : ExitStatus) (t : Transport) (c' : Conn) :
+    Prop where
+  one_handler : hsCount c'.env.tr.events = 1
+  log : ∃ before after : List Bytes, (∀ u ∈ before ++ after, ¬ EndHead p.id <+: u) ∧
+    c'.env.tr.wlog = t.wlog ++ (owedPreamble p mc recs ++ before.flatten ++ endRequest p.id st ++ after.flatten)
+
+theorem endOnce_of_log {p : Preamble} {recs pre post : List Rec} {mc : Nat} {st : ExitStatus} {t : Transport}
+    {c' : Conn} (hid : p.id < 65536) (hpre : ∀ r ∈ pre, r.WF)
+    (hnb : ∀ r ∈ post, r.rtype.toNat ≠ RT.beginRequest) (h1 : hsCount c'.env.tr.events = 1) {full : Bool}
+    {tail : Bytes} (ht : tail = [] ∨ tail = idleOwed mc post)
+    (hlog : c'.env.tr.wlog = t.wlog ++ (owedPreamble p mc recs ++ owedActive p.id mc pre ++
+      epilogueFor p.id st full ++ tail)) : EndOnce p recs mc st t c' := by
+  have hb1 : ∀ u ∈ pre.map (owed (some p.id) mc), ¬ EndHead p.id <+: u := by
+    intro u hu
+    obtain ⟨r, hr, rfl⟩ := List.mem_map.1 hu
+    exact owed_active_not_end hid (hpre r hr)
+  have hb2 : ∀ u ∈ (if full then [RecordHeader.toBytes ⟨6, p.id, 0, 0⟩, RecordHeader.toBytes ⟨7, p.id, 0, 0⟩] else []),
+      ¬ EndHead p.id <+: u := by
+    intro u hu
+    cases full with
+    | false => simp at hu
+    | true =>
+      simp only [if_true, List.mem_cons, List.not_mem_nil, or_false] at hu
+      rcases hu with rfl | rfl
+      · exact (emptyStreams_not_end p.id).1
+      · exact (emptyStreams_not_end p.id).2
+  have ha : ∀ u ∈ post.map (owed none mc), ¬ EndHead p.id <+: u := by
+    intro u hu
+    obtain ⟨r, hr, rfl⟩ := List.mem_map.1 hu
+    exact owed_idle_not_end p.id (hnb r hr)
+  have hflat : (pre.map (owed (some p.id) mc) ++
+      (if full then [RecordHeader.toBytes ⟨6, p.id, 0, 0⟩, RecordHeader.toBytes ⟨7, p.id, 0, 0⟩] else [])).flatten ++
+      endRequest p.id st = owedActive p.id mc pre ++ epilogueFor p.id st full := by
+    cases full <;>
+      simp [owedActive, owedI, epilogueFor, emptyStreams, List.flatMap_def, List.append_assoc]
+  refine ⟨h1, pre.map (owed (some p.id) mc) ++
+      (if full then [RecordHeader.toBytes ⟨6, p.id, 0, 0⟩, RecordHeader.toBytes ⟨7, p.id, 0, 0⟩] else []),
+    (if tail = [] then [] else post.map (owed none mc)), ?_, ?_⟩
+  · intro u hu
+    rcases List.mem_append.1 hu with hu | hu
+    · rcases List.mem_append.1 hu with hu | hu
+      · exact hb1 u hu
+      · exact hb2 u hu
+    · by_cases h0 : tail = []
+      · simp [h0] at hu
+      · rw [if_neg h0] at hu
+        exact ha u hu
+  · have htl : (if tail = [] then [] else post.map (owed none mc)).flatten = tail := by
+      by_cases h0 : tail = []
+      · simp [h0]
+      · rw [if_neg h0]
+        rcases ht with ht | ht
+        · exact absurd ht h0
+        · rw [ht]; simp [idleOwed, List.flatMap_def]
+    rw [hlog, htl]
+    have e : owedPreamble p mc recs ++ (pre.map (owed (some p.id) mc) ++
+        (if full then [RecordHeader.toBytes ⟨6, p.id, 0, 0⟩, RecordHeader.toBytes ⟨7, p.id, 0, 0⟩] else [])).flatten ++
+        endRequest p.id st ++ tail =
+        owedPreamble p mc recs ++ owedActive p.id mc pre ++ epilogueFor p.id st full ++ tail := by
+      rw [List.append_assoc (owedPreamble p mc recs), hflat]
+      simp only [List.append_assoc]
+    rw [e]
+
+theorem endOnce_of_outcome {p : Preamble} {recs pre : List Rec} {a : Rec} {post : List Rec} {b mc : Nat}
+    {st : ExitStatus} {more : List (List HOp × Bool)} {t : Transport} {c' : Conn} {fin : String}
+    (hid : p.id < 65536) (hpre : ∀ r ∈ pre, r.WF) (hnb : ∀ r ∈ post, r.rtype.toNat ≠ RT.beginRequest)
+    (h : FilterAbortOutcome p recs pre a post b mc st more t c' fin) : EndOnce p recs mc st t c' := by
+  have e : ∀ x, endRequest p.id st ++ x = epilogueFor p.id st false ++ x := by
+    intro x; simp [epilogueFor]
+  rcases h.final with ⟨_, hlog, _⟩ | ⟨_, _, _, hlog⟩
+  · refine endOnce_of_log hid hpre hnb h.one_handler.1 (full := false) (Or.inr rfl) ?_
+    rw [hlog]; simp [epilogueFor]
+  · refine endOnce_of_log (post := post) hid hpre hnb h.one_handler.1 (full := false) (Or.inl rfl) ?_
+    rw [hlog]; simp [epilogueFor]
+
+theorem endOnce_of_dataOutcome {p : Preamble} {recs pre : List Rec} {c2 : Bytes} {a : Rec} {post : List Rec}
+    {b mc : Nat}
+    {st : ExitStatus} {more : List (List HOp × Bool)} {t : Transport} {c' : Conn} {fin : String}
+    (hid : p.id < 65536) (hpre : ∀ r ∈ pre, r.WF) (hnb : ∀ r ∈ post, r.rtype.toNat ≠ RT.beginRequest)
+    (h : FilterAbortDataOutcome p recs pre c2 a post b mc st more t c' fin) : EndOnce p recs mc st t c' := by
+  obtain ⟨acc, lost, _, _, hf⟩ := h.final
+  rcases hf with ⟨_, hlog, _⟩ | ⟨_, _, _, hlog⟩
+  · exact endOnce_of_log hid hpre hnb h.one_handler.1 (full := !acc.isEmpty) (Or.inr rfl) hlog
+  · refine endOnce_of_log (post := post) hid hpre hnb h.one_handler.1 (full := !acc.isEmpty) (Or.inl rfl) ?_
+    rw [hlog]; simp
+
+theorem gapPre_wf {id : Nat} (hid : id < 65536) {sbody mid : List Rec} {pad : Bytes} {res : UInt8}
+    (hs : ∀ r ∈ sbody, r.WF) (hp : pad.length < 256) (hm : ∀ r ∈ mid, r.WF) :
+    ∀ r ∈ gapPre id sbody pad res mid, r.WF := by
+  intro r hr
+  rcases List.mem_append.1 hr with hr | hr
+  · exact hs r hr
+  · rcases List.mem_cons.1 hr with rfl | hr
+    · exact ⟨hid, by simp [stdinTerm], hp⟩
+    · exact hm r hr
+
+/-- the status of the one `EndRequest`: `ABORT` (`"ABRT"`) iff the handler returned the abort error
+(`pr`: it propagated the error of its failed read), else the handler's own -/
+theorem closeStatus_spec (s0 : ExitStatus) : closeStatus true s0 = ExitStatus.abort ∧ closeStatus false s0 = s0 :=
+  ⟨rfl, rfl⟩
+
+/-- **C11 for a Filter — the table.**  For every cell proved in `Props/C11Filter`, `C11Filter2` and this
+file — handler (a) `rscript s0` propagating errors, (b) `rscript s0` ignoring them (`pr = false`), (c)
+`[ret st]`; the request's `AbortRequest` (i) inside Stdin, (ii) between the Stdin terminator and the first
+Data content, (iii) inside the Data stream (rows (a), (b): behind Data content or noise; row (c): behind
+noise of the Data stream only) —: the run ends (`STALL` parked / `RET`), and `EndOnce`: one handler start,
+exactly one `EndRequest` for the request, with status `ABORT` iff the handler returned the abort error,
+else the handler's own status.  NOT covered: row (c) with Data CONTENT before the abort record. -/
+theorem filter_abort_table :
+    -- row (c): the handler never reads; (i), (ii), (iii) with no Data content before the abort record
+    (∀ {p : Preamble} {recs pre : List Rec} {a : Rec} {post : List Rec} {b mc : Nat} {st : ExitStatus}
+      {more : List (List HOp × Bool)} {t : Transport} {fuel : Nat},
+      WellFormedPreamble p recs → p.role = 3 → (∀ q ∈ p.pairs, (NV.enc q).length ≤ alignedBufsize b) →
+      NoiseFits (alignedBufsize b) recs → (∀ r ∈ pre, StdinRec p.id r) → NoiseFits (alignedBufsize b) pre →
+      IsAbort p.id a → (∀ r ∈ post, r.WF) → NoiseFits (alignedBufsize b) post →
+      (∀ r ∈ post, r.rtype.toNat ≠ RT.beginRequest) →
+      t.input = serAll recs ++ (serAll (pre ++ [a]) ++ serAll post) → Ben t → hsCount t.events = 0 →
+      t.rd.length + t.wr.length + 1 ≤ fuel → 6 * t.input.length + 26 ≤ 100000 →
+      ∃ c' fin, runTask fuel (connS b mc t (([.ret st], true) :: more)) 0 none = (c', fin) ∧
+        EndOnce p recs mc st t c') ∧
+    -- rows (a) (`pr = true`) and (b) (`pr = false`), placement (i)
+    (∀ {p : Preamble} {recs pre : List Rec} {a : Rec} {post : List Rec} {b mc : Nat} {content : Bytes}
+      {s0 : ExitStatus} {pr : Bool} {more : List (List HOp × Bool)} {t : Transport} {fuel : Nat},
+      WellFormedPreamble p recs → p.role = 3 → (∀ q ∈ p.pairs, (NV.enc q).length ≤ alignedBufsize b) →
+      NoiseFits (alignedBufsize b) recs → Body p.id 5 content pre → NoiseFits (alignedBufsize b) pre →
+      IsAbort p.id a → (∀ r ∈ post, r.WF) → NoiseFits (alignedBufsize b) post →
+      (∀ r ∈ post, r.rtype.toNat ≠ RT.beginRequest) →
+      t.input = serAll recs ++ (serAll (pre ++ [a]) ++ serAll post) → Ben t → hsCount t.events = 0 →
+      t.rd.length + t.wr.length + 1 ≤ fuel → 6 * t.input.length + 26 ≤ 100000 →
+      ∃ c' fin, runTask fuel (connS b mc t ((rscript s0, pr) :: more)) 0 none = (c', fin) ∧
+        EndOnce p recs mc (closeStatus pr s0) t c') ∧
+    -- rows (a), (b), placement (ii)
+    (∀ {p : Preamble} {recs sbody mid : List Rec} {pad : Bytes} {res : UInt8} {a : Rec} {post : List Rec}
+      {b mc : Nat} {content : Bytes}
+      {s0 : ExitStatus} {pr : Bool} {more : List (List HOp × Bool)} {t : Transport} {fuel : Nat},
+      WellFormedPreamble p recs → p.role = 3 → (∀ q ∈ p.pairs, (NV.enc q).length ≤ alignedBufsize b) →
+      NoiseFits (alignedBufsize b) recs → Body p.id 5 content sbody → NoiseFits (alignedBufsize b) sbody →
+      pad.length < 256 → (∀ r ∈ mid, StdinRec p.id r) → NoiseFits (alignedBufsize b) mid →
+      IsAbort p.id a → (∀ r ∈ post, r.WF) → NoiseFits (alignedBufsize b) post →
+      (∀ r ∈ post, r.rtype.toNat ≠ RT.beginRequest) →
+      t.input = serAll recs ++ gapX p.id sbody pad res mid a post → Ben t → hsCount t.events = 0 →
+      t.rd.length + t.wr.length + 1 ≤ fuel → 6 * t.input.length + 26 ≤ 100000 →
+      ∃ c' fin, runTask fuel (connS b mc t ((rscript s0, pr) :: more)) 0 none = (c', fin) ∧
+        EndOnce p recs mc (closeStatus pr s0) t c') ∧
+    -- rows (a), (b), placement (iii): Data records (content `c2`, possibly empty) before the abort record
+    (∀ {p : Preamble} {recs sbody dbody : List Rec} {pad : Bytes} {res : UInt8} {a : Rec} {post : List Rec}
+      {b mc : Nat} {content c2 : Bytes}
+      {s0 : ExitStatus} {pr : Bool} {more : List (List HOp × Bool)} {t : Transport} {fuel : Nat},
+      WellFormedPreamble p recs → p.role = 3 → (∀ q ∈ p.pairs, (NV.enc q).length ≤ alignedBufsize b) →
+      NoiseFits (alignedBufsize b) recs → Body p.id 5 content sbody → NoiseFits (alignedBufsize b) sbody →
+      pad.length < 256 → Body p.id 8 c2 dbody → NoiseFits (alignedBufsize b) dbody →
+      IsAbort p.id a → (∀ r ∈ post, r.WF) → NoiseFits (alignedBufsize b) post →
+      (∀ r ∈ post, r.rtype.toNat ≠ RT.beginRequest) →
+      t.input = serAll recs ++ gapX p.id sbody pad res dbody a post → Ben t → hsCount t.events = 0 →
+      t.rd.length + t.wr.length + 1 ≤ fuel → 6 * t.input.length + 26 ≤ 100000 →
+      ∃ c' fin, runTask fuel (connS b mc t ((rscript s0, pr) :: more)) 0 none = (c', fin) ∧
+        EndOnce p recs mc (closeStatus pr s0) t c') ∧
+    -- the status
+    (∀ s0, closeStatus true s0 = ExitStatus.abort ∧ closeStatus false s0 = s0) := by
+  refine ⟨?_, ?_, ?_, ?_, closeStatus_spec⟩
+  · intro p recs pre a post b mc st more t fuel hwf hrole hpairs hnoise hpre hpf ha hpost hpostf hnb hin hben hev
+      hfuel hsize
+    obtain ⟨c', fin, hrun, ho⟩ := filter_abort_noread_e2e (more := more) hwf hrole hpairs hnoise hpre hpf ha hpost
+      hpostf hnb hin hben hev hfuel hsize
+    exact ⟨c', fin, hrun, endOnce_of_outcome (pid_of_wf hwf).2 (fun r hr => (hpre r hr).1) hnb ho⟩
+  · intro p recs pre a post b mc content s0 pr more t fuel hwf hrole hpairs hnoise hbody hpf ha hpost hpostf hnb
+      hin hben hev hfuel hsize
+    obtain ⟨c', fin, hrun, ho⟩ := filter_abort_stdin_e2e (more := more) hwf hrole hpairs hnoise hbody hpf ha hpost
+      hpostf hnb hin hben hev hfuel hsize
+    exact ⟨c', fin, hrun, endOnce_of_outcome (pid_of_wf hwf).2 (body_wf (pid_of_wf hwf).2 hbody) hnb ho⟩
+  · intro p recs sbody mid pad res a post b mc content s0 pr more t fuel hwf hrole hpairs hnoise hbody hpf hpad
+      hmid hmf ha hpost hpostf hnb hin hben hev hfuel hsize
+    obtain ⟨c', fin, hrun, ho⟩ := filter_abort_gap_e2e (more := more) hwf hrole hpairs hnoise hbody hpf hpad hmid hmf
+      ha hpost hpostf hnb hin hben hev hfuel hsize
+    exact ⟨c', fin, hrun, endOnce_of_outcome (pid_of_wf hwf).2
+      (gapPre_wf (pid_of_wf hwf).2 (body_wf (pid_of_wf hwf).2 hbody) hpad (fun r hr => (hmid r hr).1)) hnb ho⟩
+  · intro p recs sbody dbody pad res a post b mc content c2 s0 pr more t fuel hwf hrole hpairs hnoise hbody hpf hpad
+      hdb hdf ha hpost hpostf hnb hin hben hev hfuel hsize
+    obtain ⟨c', fin, hrun, ho⟩ := filter_abort_data_e2e (more := more) hwf hrole hpairs hnoise hbody hpf hpad hdb hdf
+      ha hpost hpostf hnb hin hben hev hfuel hsize
+    exact ⟨c', fin, hrun, endOnce_of_dataOutcome (pid_of_wf hwf).2
+      (gapPre_wf (pid_of_wf hwf).2 (body_wf (pid_of_wf hwf).2 hbody) hpad (body_wf (pid_of_wf hwf).2 hdb)) hnb ho⟩
+
 end Fcgi.C11F
